@@ -7,6 +7,7 @@ case letters, never D-Bus type codes) that select another RUST type for the same
 signature, the model type and the value tokens are those of the unmarked name (lib/wiregen.parse_ext and
 ocaml/wire/driver.ml parse_ety drop the markers):
   D  raw f64 (the element type with the `valid_slice` memcpy path; `d` is the wrapper F64 = general path)
+  H  descriptor written through <&dyn AsRawFd as Marshal>, read through UnixFd
   S  String written through &str and read through <&str as Unmarshal>      O  ObjectPath<&str>      G  SignatureWrapper<&str>
   aC<e>  read through Cow<[E]>, written through &[E]          aR<e>  written through <&[E] as Marshal> directly
   aN<e>  written through [E; N] (N = 0..5, 8; other lengths through the unsized [E]), read through Vec<E>
@@ -18,7 +19,7 @@ import itertools, os
 
 BASE = {"y": "u8", "b": "bool", "n": "i16", "q": "u16", "i": "i32", "u": "u32", "x": "i64", "t": "u64",
         "d": "F64", "h": "Fd", "s": "String", "o": "Path", "g": "Sig",
-        "D": "f64", "S": "BStr", "O": "BPath", "G": "BSig"}
+        "D": "f64", "S": "BStr", "O": "BPath", "G": "BSig", "H": "FdDyn"}
 KEYS = "ybnqiuxtsoSO"        # hashable key types available in Rust (f64, UnixFd, SignatureWrapper are not Hash)
 ARRAY_FLAVOUR = {"C": "CowA", "R": "SliceR", "N": "ArrN"}
 
@@ -140,6 +141,7 @@ def flavoured():
     out += ["aBy", "(yaBy)", "(aByy)", "(taBy)", "(yaByq)", "(aByt)", "aaBy", "a{saBy}", "v[aBy]", "a(aByn)"]
     # <&str as Unmarshal>, ObjectPath<&str>, SignatureWrapper<&str>
     out += ["S", "aS", "(yS)", "(Sy)", "(ySq)", "(SyS)", "a{St}", "a{sS}", "a{SS}", "v[S]", "aaS", "a(Sy)", "aCS", "aNS"]
+    out += ["H", "aH", "(yH)", "(Hy)", "(yHq)", "a{sH}", "(HsH)", "a(yH)"]
     out += ["O", "G", "aO", "aG", "(yO)", "(Gy)", "(yGq)", "(Oyt)", "a{sO}", "a{Oy}", "a{sG}", "v[O]", "v[G]", "a(Gy)"]
     return out
 
